@@ -112,6 +112,17 @@ def body_producers(case, ctx):
                 ctx.label("numpy-refuses-not-asserted")
                 return
             rl.expect_rl(lib(lambda: uf(x, y)), e.value, "rl-rl-ufunc", strict=True, uf=op[1])
+        elif op[0] == "binary-self":
+            # both operands derive from the SAME encoded array (x op x, two comparisons of x, x and x // 2 ...)
+            uf = getattr(np, op[1])
+            der = {"id": lambda v, ref: v, "gt": lambda v, ref: v > ref[len(ref) // 2], "lt": lambda v, ref: v < ref[-1],
+                   "half": lambda v, ref: v // 2, "eq0": lambda v, ref: v == ref[0], "neg": lambda v, ref: np.negative(v)}
+            e = lib(lambda: uf(der[op[2]](a, a), der[op[3]](a, a)))
+            if not e.ok:
+                ctx.label("numpy-refuses-not-asserted")
+                return
+            ctx.label("self-pair:%s-%s" % (op[2], op[3]))
+            rl.expect_rl(lib(lambda: uf(der[op[2]](x, a), der[op[3]](x, a))), e.value, "rl-rl-ufunc-same-parent", strict=True, uf=op[1], pair=op[2:])
         elif op[0] == "concat":
             parts = [a] + [rl.dense(case["dt"], r) for r in op[1]]
             xs = [x] + [rl.encode(p) for p in parts[1:]]
@@ -140,8 +151,11 @@ def producer_case(draw, tier):
     dt = draw(st.sampled_from(rl.RL_DT))
     runs = draw(rl.runs(dt, tier))
     n = sum(l for _, l in runs)
-    kind = draw(st.sampled_from(["slice", "slice", "unary", "scalar", "binary", "binary", "concat", "mask"]))
-    if kind == "slice":
+    kind = draw(st.sampled_from(["slice", "slice", "unary", "scalar", "binary", "binary", "binary-self", "concat", "mask"]))
+    if kind == "binary-self":
+        D = st.sampled_from(["id", "id", "gt", "lt", "half", "eq0", "neg"])
+        op = ["binary-self", draw(st.sampled_from(BINARY_UF)), draw(D), draw(D)]
+    elif kind == "slice":
         op = ["slice", draw(gen.bound(n)), draw(gen.bound(n)), draw(st.sampled_from([None, 1, -1, 2, -2, 3, -3, 5, max(n, 1), -max(n, 1)]))]
     elif kind == "unary":
         op = ["unary", draw(st.sampled_from(UNARY))]
